@@ -17,7 +17,7 @@ theorem step_phase_cases {c : Cfg} {s s' : State} {e : Ev} (hs : step c s e = so
   | wake n => obtain ⟨a, b, d, rfl⟩ := step_wake.mp hs; simp only [set]; grind
   | cbReturn n r =>
     obtain ⟨a, b, d⟩ := step_cbReturn.mp hs
-    rcases d with ⟨_, rfl⟩ | ⟨_, rfl⟩ | ⟨_, _, rfl⟩ <;> simp only [set] <;> grind
+    rcases d with ⟨_, rfl⟩ | ⟨_, rfl⟩ | ⟨_, _, rfl⟩ | ⟨_, _, rfl⟩ <;> simp only [set] <;> grind
   | complete n =>
     obtain ⟨a, d⟩ := step_complete.mp hs
     rcases d with ⟨hp, rfl⟩ | ⟨hp, rfl⟩
